@@ -257,7 +257,11 @@ func WritePNG(g Gen) *File {
 			txtb = txtb[:2000]
 		}
 		txt := printable(txtb)
-		if g.Bool(1, 2) {
+		if g.Intn(10) == 0 {
+			// a very long run of one character: the zlib stream of a zTXt chunk expands beyond 1000:1
+			txt = string(bytes.Repeat([]byte{byte('a' + g.Intn(26))}, g.Range(700000, 2200000)))
+		}
+		if g.Bool(1, 2) && len(txt) < 100000 {
 			extra = append(extra, PNGChunk{Type: "tEXt", Data: append(append([]byte(kw), 0), txt...), Keyword: kw, Text: txt})
 		} else {
 			var zb bytes.Buffer
